@@ -427,6 +427,8 @@ class Optional(Field):
 
 
 class Move(Field):
+    holds_no_value = True
+
     def __init__(self, move_arg, reference, is_alignment):
         Field.__init__(self)
         self.move_arg = move_arg
